@@ -153,6 +153,9 @@ def comps_of(circuit):
 
 
 def handle(case):
+    if case.get('k') in ('repcode', 'simplified', 'multi', 'calib'):      # library-built circuits
+        import lib_impl
+        return lib_impl.handle(case)
     env = {GlobalRegistryKey[k]: v for k, v in case['env'].items()}
     out = {}
     want = case.get('obs', ['plain', 'plain_dur_first', 'unrolled'])
